@@ -5,6 +5,12 @@ dictionary is `{"d":[[key,value],…]}` in insertion order.  Exceptions: `{"e":"
 `{"e":"unmodelled"}` when the model declines.  Requests:
   {"op":"get","d":V,"keys":[K,…],"default":V?}   K = {"s":str} | {"l":[V,…]} | {"k":V} | {"o":0}
         -> {"r":[{"r":V}|{"e":..},…]}
+  {"op":"addr","d":V,"alpha":[str,…],"maxlen":n,"alpha4":[str,…]?,"default":V}
+        -> {"r":[str,…]}   one string per key path (all paths over alpha of length 0..maxlen in the order of
+           itertools.product, then the paths of length 4 over alpha4): for each notation of the path (dotted string,
+           list, dictionary ending in {}, and for >= 2 keys dictionary ending in the last key) the outcome without
+           and with default, then contains(dotted), then the reference getPath; fields separated by "|":
+           "=" the value getPath names, "D" the default, an exception name, "T"/"F", "-" absent, else the JSON
   {"op":"path","d":V,"paths":[[str,…],…]}          -> {"r":[V|{"absent":true},…]}       (reference `getPath`)
   {"op":"str_to_dict","s":str,"value":V?}          -> {"r":V}|{"e":..}
   {"op":"str_to_list","s":str}                     -> {"r":[str,…]}
@@ -17,6 +23,7 @@ dictionary is `{"d":[[key,value],…]}` in insertion order.  Exceptions: `{"e":"
         "recursively":b},"items":[V|null,…]}       -> {"init":"ok"|exc,"calls":[{"r":V|null}|{"e":..},…]}
   {"op":"dc","key":{"s":str}|{"l":[str,…]},"items":[V|null,…]} -> {"calls":[{"r":V|null},…]}
   {"op":"setctx","key":str,"value":V,"ctxs":[V,…]} -> {"init":"ok"|exc,"get0":…,"steps":[{"set":"ok"|exc,"get":{"r":V}|{"e":..}},…]}
+  {"op":"pyeq","vs":[V,…]}                         -> {"r":[[bool,…],…]}   (pyEq of every pair)
   {"op":"jinja","t":str}                           -> {"r":[["lit",s]|["field",[..]],…]}|{"e":"syntax"|"foreign"} -/
 open Lean Lena.Drv Lena.C08
 
@@ -107,6 +114,47 @@ def ofPiece : Piece → Json
 
 def boolD (j : Json) (k : String) (d : Bool) : Bool := (bool? (getD j k)).getD d
 
+/-- all key paths over `alpha` of length `n`, in the order of `itertools.product(alpha, repeat=n)` -/
+def pathsOfLen (alpha : List String) : Nat → List (List String)
+  | 0 => [[]]
+  | n + 1 => alpha.flatMap (fun a => (pathsOfLen alpha n).map (a :: ·))
+
+def pathsUpTo (alpha : List String) (n : Nat) : List (List String) :=
+  (List.range (n + 1)).flatMap (pathsOfLen alpha)
+
+/-- `{k1: {k2: … {kn: v}}}` -/
+def nestD : List String → Val → Val
+  | [], v => v
+  | k :: r, v => .dict [(k, nestD r v)]
+
+def entriesOf : Val → Entries
+  | .dict es => es
+  | .leaf _ => []
+
+/-- the notations of a key path, as the harness builds them -/
+def variants (p : List String) : List KeyArg :=
+  [.str (String.intercalate "." p), .list (p.map (fun k => .leaf (.str k))), .dict (entriesOf (nestD p (.dict [])))] ++
+  (if p.length ≥ 2 then [.dict (entriesOf (nestD p.dropLast (.leaf (.str (p.getLastD "")))))] else [])
+
+def codeOf (ref : Option Val) (dflt : Val) : Except Exc Val → String
+  | .error e => excName e
+  | .ok v =>
+    let js := (ofVal v).compress
+    if (ref.map (fun r => (ofVal r).compress)) == some js then "="
+    else if js == (ofVal dflt).compress then "D"
+    else "r:" ++ js
+
+def addrLine (d : Val) (dflt : Val) (p : List String) : String :=
+  let ref := getPath d p
+  let gets := (variants p).flatMap (fun k => [codeOf ref dflt (getRec d k none), codeOf ref dflt (getRec d k (some dflt))])
+  let c := match d with
+    | .dict es => if contains es (String.intercalate "." p) then "T" else "F"
+    | .leaf _ => "?"
+  let pr := match ref with
+    | some v => (ofVal v).compress
+    | none => "-"
+  String.intercalate "|" (gets ++ [c, pr])
+
 def handleUC (j : Json) : Json :=
   let a := getD j "args"
   let sub : Option (Option String) :=
@@ -138,6 +186,14 @@ def handle (j : Json) : Json :=
       if isBad dflt then err "get: bad default" else
       Json.mkObj [("r", ofList (fun k => ofRes ofVal (getRec d k dflt.join)) ks)]
     | _, _, _ => err "bad get args"
+  | some "addr" =>
+    match toVal (getD j "d"), strList? (getD j "alpha"), nat? (getD j "maxlen"), toVal (getD j "default") with
+    | some d, some alpha, some n, some dflt =>
+      let ps := pathsUpTo alpha n ++ (match strList? (getD j "alpha4") with
+        | some a4 => pathsOfLen a4 4
+        | none => [])
+      Json.mkObj [("r", ofList (fun p => Json.str (addrLine d dflt p)) ps)]
+    | _, _, _, _ => err "bad addr args"
   | some "path" =>
     match toVal (getD j "d"), (arr? (getD j "paths")).bind (fun a => a.toList.mapM strList?) with
     | some d, some ps =>
@@ -171,6 +227,10 @@ def handle (j : Json) : Json :=
     match valList? (getD j "vs") with
     | some vs => Json.mkObj [("r", ofList (fun v => Json.str (toStringV v)) vs)]
     | none => err "bad to_string args"
+  | some "pyeq" =>
+    match valList? (getD j "vs") with
+    | some vs => Json.mkObj [("r", ofList (fun a => ofList (fun b => Json.bool (pyEq a b)) vs) vs)]
+    | none => err "bad pyeq args"
   | some "update_recursively" =>
     let o := getD j "other"
     let other : Option UpdOther :=
